@@ -163,6 +163,17 @@ def gamma_documented(G, n, dt, dkmax, tau):
 
 def boson_search(chk, n_cases):
     rng = chk.rng
+    # every run: a parameter scan -- correlation objects that agree in everything but ONE parameter, all built up front and
+    # alive together, then used one after the other with no construction in between (iterations 3..5)
+    scan_kind = rng.choice(["zeta", "alpha", "custom"])
+    sa, sc, sT, sct = rng.choice([0.1, 0.2]), rng.choice([1.0, 3.0]), rng.choice([0.0, 0.2]), rng.choice(["exponential", "gaussian"])
+    if scan_kind == "zeta":
+        scan = [oqupy.PowerLawSD(alpha=sa, zeta=z, cutoff=sc, cutoff_type=sct, temperature=sT) for z in rng.sample([0.5, 1, 2, 3], 3)]
+    elif scan_kind == "alpha":
+        scan = [oqupy.PowerLawSD(alpha=a_, zeta=1, cutoff=sc, cutoff_type=sct, temperature=sT) for a_ in rng.sample([0.05, 0.1, 0.2, 0.4], 3)]
+    else:       # spectral densities that agree at the cut-off frequency and at w = 1 but are different functions
+        scan = [oqupy.CustomSD(f, cutoff=2.0, cutoff_type=sct, temperature=sT)
+                for f in (lambda w: 0.1 * w, lambda w: 0.05 * w ** 2, lambda w: 0.1 * w * (1 + 0.3 * (w - 1) * (w - 2)))]
     for it in range(n_cases):
         d = rng.choice([2, 2, 3, 4] if chk.tier == "thorough" else [2, 2, 3])
         o = np.array([rng.choice([-1.0, -0.5, 0.0, 0.5, 1.0, 1.5]) for _ in range(d)])
@@ -184,7 +195,9 @@ def boson_search(chk, n_cases):
             rho0 = np.asfortranarray(rho0)          # same values, Fortran memory order (complex coherences: not symmetric)
         ck = rng.choice(["power", "power", "customsd", "customcorr"])
         T = rng.choice([0.0, 0.02, 0.2, 2.0]) if it >= 2 else 0.02      # 0.02: cold but non-zero (overflow-guard branch of eta_function)
-        if ck == "power":
+        if 3 <= it <= 5:
+            ck, T, corr = "scan-" + scan_kind, sT, scan[it - 3]
+        elif ck == "power":
             corr = oqupy.PowerLawSD(alpha=rng.choice([0.05, 0.2, 0.5]), zeta=rng.choice([0.5, 1, 2, 3]), cutoff=rng.choice([1.0, 3.0]),
                                     cutoff_type=rng.choice(["hard", "exponential", "gaussian"]), temperature=T)
         elif ck == "customsd":
